@@ -1,7 +1,7 @@
 """C54 — sticky cookies are only sent to hosts and paths they belong to
 (mitmproxy/addons/stickycookie.py: ckey, domain_match, path_match, StickyCookie.response/request;
 mitmproxy/net/http/cookies.py: Set-Cookie parsing, is_expired, format_cookie_header)."""
-import email.utils, ipaddress, itertools, re
+import email.utils, ipaddress, itertools, json, re
 from common.check import PropertyCheck, hx, unhx
 from mitmproxy import http
 from mitmproxy.addons import stickycookie
@@ -19,6 +19,7 @@ RPATHS = ["/", "/foo", "/foo/", "/foobar", "/foo/bar", "/foo?x=1", "/foo?x=/foo/
           "/foo/bar?q", "/foobar/", "/foo%2Fbar", "/%66oo/bar", "/foo;p=/foo/", "/foo%3Fx", "//foo", "/foo/../other"]
 NAMES = ["a", "b", "sid"]
 NOW = 1_800_000_000     # the frozen clock of every run (2027-01-15): between the past and the future dates below
+PAST850, FUTURE850 = "Thursday, 01-Jan-70 00:00:00 GMT", "Friday, 01-Jan-37 00:00:00 GMT"     # RFC 850: long weekday names
 PAST, PAST2, FUTURE = "Thu, 01-Jan-1970 00:00:00 GMT", "Wed, 13-Jan-2021 22:23:01 GMT", "Fri, 01 Jan 2100 00:00:00 GMT"
 EXPIRY = [  # lists of attribute pairs (value None = attribute sent without "=value")
     [], [], [], [["Max-Age", "3600"]], [["Expires", FUTURE]],
@@ -28,6 +29,10 @@ EXPIRY = [  # lists of attribute pairs (value None = attribute sent without "=va
     [["Max-Age", None]], [["Max-Age", None], ["Expires", PAST]], [["Expires", None]], [["Expires", None], ["Max-Age", "0"]],
     [["Max-Age", ""]], [["Max-Age", "1_0"]], [["Max-Age", "+0"]], [["Max-Age", "3600"], ["Max-Age", "0"]],
     [["Expires", PAST], ["Expires", FUTURE]], [["Expires", "garbage"]],
+    # boundary of the tokenizer's Expires handling: short / empty values, bare or long weekday names, with and without what follows
+    [["Expires", "0"]], [["Expires", "-1"]], [["Expires", "now"]], [["Expires", ""]], [["Expires", "Thu"]], [["Expires", "1970"]],
+    [["Expires", PAST850]], [["Expires", FUTURE850]], [["expires", "Sunday, 06-Nov-94 08:49:37 GMT"]], [["Expires", "Wednesday"]],
+    [["Expires", PAST850], ["Max-Age", "3600"]], [["Expires", "0"], ["Max-Age", "0"]],
 ]
 EXTRA = [["Secure", None], ["SameSite", "Lax"], ["HttpOnly", None], ["Domain", None], ["Path", None]]
 PLAIN_INT = re.compile(r"-?[0-9]+\Z")
@@ -112,12 +117,16 @@ class Check(PropertyCheck):
                   "for it says; expired = gone), jar_keys_and_names_unique, attached_is_latest_unexpired (only that last value is "
                   "ever attached), attached_only_if_spec_match_raw (the same with the clock, cookies.get_expiration_ts/is_expired "
                   "incl. Python int() and the case-insensitive last-value attribute lookup inside the model), "
-                  "max_age_nonpositive_is_expired, no_expiry_attribute_not_expired, valueless_domain_path_ignored; all against "
+                  "max_age_nonpositive_is_expired, no_expiry_attribute_not_expired, valueless_domain_path_ignored, and the "
+                  "RFC-acceptance reading of the expiry clause ExpiredRemovedRFC with expired_removed_rfc_partial / "
+                  "_counterexample (finding F-C54g); all against "
                   "RFC 6265 §5.1.3/§5.2.3/§5.1.4 stated in Lean, for ALL histories, every clock and every notion of 'IP address' "
                   "obeying two stated laws. Tie: differential histories (the model PREDICTS is_expired of every Set-Cookie and "
                   "the Cookie header of every request; frozen clock), exhaustive host x domain / path x path pairs, int() strings.")
     level_note = ("trusted: Lean kernel; differential tie; the Set-Cookie tokeniser (header text -> name, value, attribute pairs, "
-                  "with None for an attribute without '=value') and email.utils date parsing are parameters of the model, "
+                  "with None for an attribute without '=value') is not transcribed, but every response event now checks that the "
+                  "real tokeniser delivers exactly the structured cookies the model is given (short/empty Expires values, bare and "
+                  "long RFC 850 weekday names, attributes before and after them) and email.utils date parsing are parameters of the model, "
                   "exercised through the real parser (the date verdict is an input of each raw cookie); the flow filter is the "
                   "`flt` flag; ASCII hosts/domains/attribute values only (str.lower = ASCII lower, int() on ASCII); the cookie's "
                   "path is the one ckey stores (Path attribute or '/'): RFC 6265's default-path is not part of the statement "
@@ -145,7 +154,7 @@ class Check(PropertyCheck):
     fingerprints = ["mitmproxy.addons.stickycookie:ckey", "mitmproxy.addons.stickycookie:domain_match",
                     "mitmproxy.addons.stickycookie:path_match", "mitmproxy.addons.stickycookie:StickyCookie.response",
                     "mitmproxy.addons.stickycookie:StickyCookie.request", "mitmproxy.net.http.cookies:is_expired",
-                    "mitmproxy.net.http.cookies:get_expiration_ts", "mitmproxy.net.http.cookies:parse_set_cookie_header",
+                    "mitmproxy.net.http.cookies:get_expiration_ts", "mitmproxy.net.http.cookies:parse_set_cookie_header", "mitmproxy.net.http.cookies:_read_set_cookie_pairs",
                     "mitmproxy.net.http.cookies:CookieAttrs", "mitmproxy.net.http.cookies:_format_pairs",
                     "http.cookiejar:domain_match", "http.cookiejar:is_HDN"]
     trusted_base = ["CPython http.cookiejar.domain_match / is_HDN / IPV4_RE as transcribed in Model/C54.lean",
@@ -163,7 +172,8 @@ class Check(PropertyCheck):
         if p is not None:
             attrs.append([rng.pick(["Path", "path"]), p])
             if rng.chance(0.05): attrs.insert(0, ["Path", "/other"])
-        attrs += [list(a) for a in rng.pick(EXPIRY)]
+        exp_attrs = [list(a) for a in rng.pick(EXPIRY)]
+        attrs = exp_attrs + attrs if rng.chance(0.5) else attrs + exp_attrs      # Domain/Path after or before Expires/Max-Age
         if rng.chance(0.25): attrs.append(list(rng.pick(EXTRA)))
         if rng.chance(0.3): rng.shuffle(attrs)
         ctr[0] += 1
@@ -271,6 +281,21 @@ class Check(PropertyCheck):
                         evs.append({"t": "req", "m": "GET", "host": h2, "port": 80, "path": rng.pick(RPATHS)})
                     evs.append({"t": "req", "m": "GET", "host": host, "port": 8080, "path": "/foo"})
                     yield {"evs": evs}
+        # directed: Expires/Max-Age variants FOLLOWED by Path / Domain (tokenizer boundary), and deletion with every expired variant
+        for k, e in enumerate(EXPIRY):
+            if tier == "quick" and k % 2 and k < 20: continue
+            e = [list(a) for a in e]
+            evs = [{"t": "resp", "host": "example.com", "port": 80, "cookies": [{"name": "a", "value": "v1", "attrs": e + [["Path", "/admin"]]}]},
+                   {"t": "req", "m": "GET", "host": "example.com", "port": 80, "path": "/other"},
+                   {"t": "req", "m": "GET", "host": "example.com", "port": 80, "path": "/admin/x"},
+                   {"t": "resp", "host": "sub.example.com", "port": 80, "cookies": [{"name": "b", "value": "v2", "attrs": e + [["Domain", ".example.com"], ["Path", "/foo"]]}]},
+                   {"t": "req", "m": "GET", "host": "www.example.com", "port": 80, "path": "/"},
+                   {"t": "req", "m": "GET", "host": "www.example.com", "port": 80, "path": "/foo/bar"}]
+            yield {"evs": evs}
+            if rfc_expired(e) is True:
+                yield {"evs": [{"t": "resp", "host": "example.com", "port": 80, "cookies": [{"name": "sid", "value": "v1", "attrs": [["Path", "/"]]}]},
+                               {"t": "resp", "host": "example.com", "port": 80, "cookies": [{"name": "sid", "value": "v2", "attrs": e + [["Path", "/"]]}]},
+                               {"t": "req", "m": "GET", "host": "example.com", "port": 80, "path": "/x"}]}
         # directed: the flow claims (Host header / :authority / server address / SNI) to be another host than its destination
         k = 0
         for owner, dom in (("example.com", None), ("sub.example.com", ".example.com"), ("evil.org", None)):
@@ -334,12 +359,16 @@ class Check(PropertyCheck):
                         f.response.headers.add("Set-Cookie", c["name"] + "=" + c["value"] +
                                                "".join(f"; {k}" if v is None else f"; {k}={v}" for k, v in c["attrs"]))
                     # what the real parser + is_expired say about each cookie (the model predicts these flags)
-                    flags = [int(bool(mcookies.is_expired(attrs))) for _, (_, attrs) in f.response.cookies.items(multi=True)]
+                    parsed = list(f.response.cookies.items(multi=True))
+                    flags = [int(bool(mcookies.is_expired(attrs))) for _, (_, attrs) in parsed]
+                    got = [[n, v, [[k, a] for k, a in attrs.fields]] for n, (v, attrs) in parsed]
+                    want = [[c["name"], c["value"], [list(a) for a in c["attrs"]]] for c in ev["cookies"]]
                     r = {}
                     try:
                         sc.response(f)
                     except Exception as e:      # the hook must not raise; what it leaves behind is judged by the oracle and the tie
                         r["raised"] = type(e).__name__
+                    if got != want: r["parsed"] = got      # the tokenizer did not deliver the cookies that were sent
                     out.append({"njar": len(sc.jar), "expired": flags, **r})
                 else:
                     f = self._flow(ev, False)
@@ -551,6 +580,7 @@ class Check(PropertyCheck):
         evs = []
         for r in obs["evs"]:
             if "raised" in r: evs.append("raised " + r["raised"])
+            elif "parsed" in r: evs.append("parsed-differently " + json.dumps(r["parsed"]))
             elif "njar" in r: evs.append(f"ok {r['njar']} " + (",".join(map(str, r["expired"])) or "_"))
             else: evs.append("none" if r["cookie"] is None else hs(r["cookie"]))
         jar = " ".join(f"{hs(d)}:{p}:{hs(pa)}=" + (";".join(f"{hs(n)}:{hs(v)}" for n, v in cs) or "_") for d, p, pa, cs in obs["jar"]) or "_"
